@@ -33,6 +33,8 @@ import (
 
 	"github.com/goblimey/go-ntrip/apps/rtcmlogger/config"
 	"github.com/goblimey/go-tools/dailylogger"
+
+	"github.com/goblimey/go-ntrip/verifhook"
 )
 
 const bufferLength = 8096
@@ -128,6 +130,7 @@ func readAndWrite(recorderChannel chan []byte, cfg *config.Config) {
 			// This is expected behaviour when the source is
 			// a pre-recorded file.  If the source is a live
 			// GNSS device it only happens if the device dies.
+			verifhook.At("copy.eof")
 			break
 		}
 		if cfg.LogEvents {
@@ -170,6 +173,7 @@ func readAndWrite(recorderChannel chan []byte, cfg *config.Config) {
 		// Send a copy of the input to the recorder.
 		copyBuffer := make([]byte, n)
 		copy(copyBuffer, readBuffer[:n])
+		verifhook.At("copy.send", n)
 		recorderChannel <- copyBuffer
 	}
 
@@ -204,6 +208,7 @@ func recorder(recorderChannel chan []byte, writer io.Writer, cfg *config.Config)
 			break
 		}
 
+		verifhook.At("rec.write", len(buffer))
 		writeRTCMLog(&buffer, writer, cfg)
 	}
 }
